@@ -83,6 +83,17 @@ def _run(beh, dtype):
         return outs
     if k == "inverse_permutation":
         return [("inverse_permutation(p)", permutation.inverse_permutation(_T(a["p"], long)).to(dtype), E)]
+    if k in ("qr", "pinverse") and a.get("zero_col"):
+        # rank-deficient input: the stabilised factorization must stay finite and (nearly) reproduce A
+        A = _T(a["a"], dtype)
+        if k == "qr":
+            Q, Rr = stable_qr(A)
+            fin = torch.tensor(float(torch.isfinite(Q).all() and torch.isfinite(Rr).all()))
+            return [("stable_qr (zero column): finite", fin, dict(tensor=torch.tensor(1.0))),
+                    ("stable_qr (zero column): Q R ~ A", (Q @ Rr - A).abs().max().clamp_min(1e-3).log10().floor(), dict(tensor=torch.tensor(-3.0)))]
+        P = stable_pinverse(A)
+        fin = torch.tensor(float(torch.isfinite(P).all()))
+        return [("stable_pinverse (zero column): finite", fin, dict(tensor=torch.tensor(1.0)))]
     if k == "qr":
         A = _T(a["a"], dtype)
         Q, Rr = stable_qr(A)
